@@ -621,6 +621,11 @@ def ca_type(rd_rs1, rs2, *, opcode, funct2, funct6, cs=None):
 def cb_type(rs1, imm, *, opcode, funct3, cs=None):
     rs1 = lookup_register(rs1, compressed=True)
 
+    if imm < -256 or imm > 255:
+        raise ValueError('8-bit MO2 immediate must be between -0x100 (-256) and 0xff (255): {}'.format(imm))
+    if imm % 2 != 0:
+        raise ValueError('8-bit MO2 immediate must be a multiple of 2: {}'.format(imm))
+
     # validate constraints
     for c in cs or []:
         c(rs1=rs1, imm=imm)
@@ -651,6 +656,9 @@ def cb_type(rs1, imm, *, opcode, funct3, cs=None):
 # c.srli, c.srai, c.andi
 def cbi_type(rd_rs1, imm, *, opcode, funct2, funct3, cs=None):
     rd_rs1 = lookup_register(rd_rs1, compressed=True)
+
+    if imm < -32 or imm > 31:
+        raise ValueError('6-bit immediate must be between -0x20 (-32) and 0x1f (31): {}'.format(imm))
 
     # validate constraints
     for c in cs or []:
